@@ -25,7 +25,10 @@ CLASSES = ["K1", "K2", "K12", "K2", "K3", "K4", "K12", "K5", "K5", "K6", "K12", 
 
 
 def cases(tier, seed):
-    return D.spec_cases(tier, seed, CLASSES, 300, 1600, "c09")
+    out = D.spec_cases(tier, seed, CLASSES, 300, 1600, "c09")
+    # appended classes of vlib/gen2.py (added after the generator freeze; see DESIGN.md 2.2)
+    from vlib import gen2
+    return out + gen2.appended(tier, seed, "c09", ['A1', 'A4', 'A3', 'A4'], 60, 360)
 
 
 def run_case(case):
@@ -45,14 +48,40 @@ def run_case(case):
     for strat in ("IterateSATGen", "RandomGen", "IterateGen"):
         a = A
         mult = want
+        big = None
         if a is None:
             r, err, st = D.exhaust(p.spec, strat, CAP, 12)
+            if st == "too_big":
+                big = r
             if st != "ok" or err:
                 counters["%s_%s" % (strat.lower(), st if st != "ok" else "raised")] = 1
-                continue
-            a = len(r)
+                if big is None:
+                    continue
+            else:
+                a = len(r)
             mult = None
-        if a > CAP:
+        elif a > CAP:
+            r, err, st = D.run_strategy(p.spec, strat, CAP + 1, 12)
+            if st == "ok" and not err:
+                big = r
+                judged += 1
+                if len(r) != CAP + 1:
+                    viol.append({"kind": "wrong_count", "strategy": strat, "requested": CAP + 1, "available": a,
+                                 "returned": len(r), "A_from_R": True,
+                                 "msg": "%s asked for %d of %d available solutions returned %d" % (strat, CAP + 1, a, len(r))})
+        if big is not None:
+            # more sequences than the cap: a without-replacement sampler still may not repeat one
+            if mult is not None or not weighted_unc:
+                counters["big_designs_distinctness_checked"] = counters.get("big_designs_distinctness_checked", 0) + 1
+                got = collections.Counter(O.seq_key(s) for s in big)
+                for k, n in got.items():
+                    lim = mult.get(k, 1) if mult is not None else 1
+                    if n > lim:
+                        viol.append({"kind": "duplicate", "strategy": strat, "requested": len(big), "available": a,
+                                     "times": n, "distinct_solutions": lim,
+                                     "msg": "%s (requested %d, more available) returned a printed sequence %d times, "
+                                            "it has %d distinct solution(s): %s" % (strat, len(big), n, lim, k[:240])})
+                        break
             continue
         reqs = sorted(set(x for x in (0, 1, 2, a - 1, a, a + 1, 3 * a) if x >= 0))
         for req in reqs:
